@@ -63,8 +63,15 @@ def _rand_case(draw):
     allow_list = lay['backend'] != 'cbin'
     exprs = []
     for _ in range(12):
-        exprs.append([draw(S.row_expr(n, bounds, allow_list=allow_list)),
-                      draw(S.col_selector(lay['nch']))])
+        ex = [draw(S.row_expr(n, bounds, allow_list=allow_list)),
+              draw(S.col_selector(lay['nch']))]
+        if draw(st.integers(0, 5)) == 0:
+            # a request NumPy rejects as well (row or channel out of range) comes first; whatever
+            # the reader answers, the valid request after it must not be affected
+            ex.append({'row': draw(st.sampled_from([n, n + 3, -n - 1, 0])),
+                       'col': draw(st.sampled_from([None, lay['nch'], -lay['nch'] - 1,
+                                                    [0, lay['nch'] + 2]]))})
+        exprs.append(ex)
     return {'mode': 'exprs', 'lay': lay, 'exprs': exprs}
 
 
@@ -135,6 +142,9 @@ def _check_expr(reader, A, e, c, stats):
     exp = exp.astype(exp.dtype.newbyteorder('='))
     out_n = out.astype(out.dtype.newbyteorder('=')) if isinstance(out, np.ndarray) else out
     same_array(what, out_n, exp, key='values:' + e['t'] + ('+cols' if c is not None else ''))
+    held = stats.setdefault('_held', [])
+    if len(held) < 6:
+        held.append((what, out, np.array(exp, copy=True)))
     if isinstance(rows, np.ndarray):
         # NumPy indexing has no side effect on the index: the same index object must select the
         # same rows when it is used again
@@ -191,13 +201,22 @@ def check(case):
             exprs = [(e, c) for e in S.all_row_exprs(n)
                      if not (lay['backend'] == 'cbin' and e['t'] == 'list') for c in cols]
         else:
-            exprs = [(e, c) for e, c in case['exprs']]
+            exprs = [tuple(x) for x in case['exprs']]
         edges = set(np.cumsum(lay['parts']).tolist()[:-1])
-        for e, c in exprs:
+        for ex in exprs:
+            e, c = ex[0], ex[1]
+            bad = ex[2] if len(ex) > 2 else None
+            if bad is not None and not (bad['row'] == 0 and bad['col'] is None):
+                try:
+                    r[bad['row']] if bad['col'] is None else r[bad['row'], bad['col']]
+                except Exception:
+                    pass
+                stats['after-rejected'] = stats.get('after-rejected', 0) + 1
             try:
                 _check_expr(r, A, e, c, stats)
             except Violation as v:
-                v.case = {'mode': 'exprs', 'lay': lay, 'exprs': [[e, c]]}
+                v.case = {'mode': 'exprs', 'lay': lay,
+                          'exprs': [[e, c] + ([bad] if bad is not None else [])]}
                 raise
             touched = S.rows_touched(n, e)
             if len(set(np.searchsorted(sorted(edges), touched, side='right').tolist())) > 1:
@@ -207,6 +226,10 @@ def check(case):
                 stats['neg'] += 1
             if e['t'] == 'list' and e.get('as') != 'list' and c is not None:
                 stats['arr+cols'] += 1
+        # results handed out earlier are the caller's: later reads must not have changed them
+        for what, out, exp in stats.pop('_held', []):
+            same_array(what + ' (result held by the caller, after later reads)',
+                       out.astype(out.dtype.newbyteorder('=')), exp, key='held-result-changed')
         # lists are the decoder's carve-out on compressed files only
         if lay['backend'] == 'cbin' and n >= 2:
             try:
@@ -244,4 +267,8 @@ def classify(case, info):
         labels.append('expr-negative-bound')
     if info['arr+cols']:
         labels.append('expr-array+cols')
+    if info.get('after-rejected'):
+        labels.append('valid-request-after-a-rejected-one')
+    if lay.get('relpath'):
+        labels.append('relative-paths-then-chdir')
     return labels, nt
